@@ -411,7 +411,7 @@ def check_c04(tier):
                     per.setdefault((slot, it["name"]), [0, it, slot])
                     per[(slot, it["name"])][0] += sum(1 for u, d in goto_actual.items() if d == (slot, idx))
                 for (slot, name), (cnt, it, _) in per.items():
-                    if cnt == 0 and slot not in ("tp", "tp2") and not it["autouse"]:
+                    if cnt == 0 and slot not in ("tp", "tp2", "tpi") and not it["autouse"]:
                         want.add((slot, name))
                 if got != want:
                     V.violation({"shape": case["shape"], "order": case["order"], "got": sorted(map(str, got or [])),
